@@ -20,4 +20,11 @@ struct FilePresentedBlockwise { struct FileAccess *f_; };
 /* what CommandFree::invoke reads from the mounted Catalog object (dfs_catalog.h accessors) */
 struct CatalogView { sector_count_type catalog_sectors; int max_file_count; sector_count_type total_sectors; };
 struct free_result { int files_free, files_used, sectors_free, sectors_used; };
+
+/* img_hxcmfm.cc: struct Header, TrackDataKey, TrackData; class HxcMfmFile { Header header_; unique_ptr<FileAccess> file_; } */
+struct HxcHeader { char signature[7]; unsigned int tracks, sides, rpm, bitrate, interface_type; unsigned long track_list_offset; };
+struct opt_HxcHeader { _Bool has; struct HxcHeader val; };
+struct TrackDataKey { unsigned int track_number, side_number; };
+struct TrackData { unsigned long mfmtracksize, mfmtrackoffset; };
+struct HxcMfmFile { struct HxcHeader header_; struct FileAccess *file_; };
 #endif
